@@ -34,7 +34,7 @@ TIERS = {"quick": {"shards": 8, "cases": 110, "timeout": 1500, "fuzz_jobs": 4, "
                       "fuzz_jobs": 16, "fuzz_runs": 3000000}}
 FLOOR_BASE = {"quick": 75, "thorough": 5000}    # case counts the floors below were calibrated for; the launcher scales them
 FLOOR_FIXED = {"reference-call-repeats", "leak-probe-calls"}
-CLASSES = ["single-variable", "matrix-gaps", "fields-only", "no-fields", "high-degree", "raw-repeated-labels",
+CLASSES = ["boundary-size", "single-variable", "matrix-gaps", "fields-only", "no-fields", "high-degree", "raw-repeated-labels",
            "stale-model", "chain-2000", "dense-40", "generic"]
 SCHED = ["empty", "zeros", "extreme", "length-1", "linear", "geometric", "list"]
 
@@ -187,6 +187,19 @@ def hostile_config(rng):
         terms = {(l,): rng.choice(coefs)}
         if rng.random() < 0.3:
             terms[()] = 2
+    elif cls == "boundary-size":
+        # sizes around the usual small-buffer / power-of-two thresholds, for both kernels
+        n = rng.choice([1, 2, 3, 7, 8, 9, 15, 16, 17, 31, 32, 33, 63, 64, 65, 127, 128, 129, 255, 256, 257, rng.randint(1, 70)])
+        fn = rng.choice(["anneal_quso", "anneal_qubo", "anneal_puso", "anneal_pubo"])
+        spin, d2 = A.is_spin(fn), A.is_deg2(fn)
+        kind = "spin" if spin else "bool"
+        tn = rng.choice(["dict", {"anneal_quso": "QUSOMatrix", "anneal_qubo": "QUBOMatrix", "anneal_puso": "PUSOMatrix", "anneal_pubo": "PUBOMatrix"}[fn],
+                         {"anneal_quso": "QUSO", "anneal_qubo": "QUBO", "anneal_puso": "PUSO", "anneal_pubo": "PUBO"}[fn]])
+        mat = tn.endswith("Matrix")
+        terms = {(i, i + 1): (1.0 if i % 2 else -2.0) for i in range(n - 1)}
+        terms[(n - 1,)] = 0.5
+        if not d2 and n >= 3:
+            terms[(0, 1, 2)] = 1.5
     elif cls == "matrix-gaps":
         tn = rng.choice([t for t in accept if t.endswith("Matrix")])
         mat = True
